@@ -209,11 +209,83 @@ def r1_free_fixed(rule, root=None):
             rule.bad("bind|%s" % fn["name"], "%s must look up each parameter's slot in this tape's own variable map" % fn["name"], A.where(fn))
 
 
+def _seed_by_meaning(jac):
+    """the unit seeds read by meaning: inside the loop over the samples j of a free parameter's row, the three
+    derivative lanes of `Grad::new(value, d0, d1, d2)` are 1 exactly when 3 j + k equals the parameter's gradient
+    index (whatever names, closures or loop idiom spell it).  -> (ok?, message) or None when not analysable"""
+    import sympy as sp
+
+    from .. import qef as QF
+
+    body = jac["body"]
+    calls = [c for c in A.find(body, "Call") if (A.path_segs(c["func"]) or [])[-2:] == ["Grad", "new"] and len(c["args"]) == 4
+             and not all(str(txt(a)) in ("0.0", "0f32", "0.0f32") for a in c["args"][1:])]
+    if len(calls) != 1:
+        return None
+    call = calls[0]
+    gname = None
+    for l_ in A.find(body, "Let"):
+        if l_.get("init") is not None and re.fullmatch(r"self\.grad_index\[\*?&?\w+\]", str(txt(l_["init"]))):
+            gname = A.binding_name(l_["pat"])
+    loops = [f for f in A.find(body, "For") if any(n is call for n in A.walk(f["body"]))]
+    if not loops:
+        return None
+    lp = loops[-1]
+    it = str(txt(lp["iter"]))
+    pat = lp["pat"]
+    J, G = sp.Symbol("j", integer=True), sp.Symbol("gi", integer=True)
+    if pat.get("k") == "PTuple" and it.endswith(".iter_mut().enumerate()") and len(pat["elems"]) == 2:
+        j = A.binding_name(pat["elems"][0])
+        elem = A.binding_name(pat["elems"][1])
+        row = it[: -len(".iter_mut().enumerate()")]
+        target_ok = any(str(txt(a["left"])) == "*%s" % elem and any(n is call for n in A.walk(a["right"])) for a in A.find(lp["body"], "Assign"))
+    elif re.fullmatch(r"\(?0\.\.(\w+)\.len\(\)\)?", it):
+        j = A.binding_name(pat)
+        row = re.fullmatch(r"\(?0\.\.(\w+)\.len\(\)\)?", it).group(1)
+        target_ok = any(str(txt(a["left"])) == "%s[%s]" % (row, j) and any(n is call for n in A.walk(a["right"])) for a in A.find(lp["body"], "Assign"))
+    else:
+        return None
+    if not j or not target_ok:
+        return (False, "the seed built for sample j must be stored in element j of the parameter's own row")
+    env = {j: J}
+    if gname:
+        env[gname] = G
+    env["self.grad_index[v]"] = G
+    it_ = QF.TInterp(env)
+    for l_ in A.find(lp["body"], "Let"):
+        if l_.get("init") is not None and A.strip(l_["init"]).get("k") == "Closure" and A.binding_name(l_["pat"]):
+            it_.env[A.binding_name(l_["pat"])] = ("closure", A.strip(l_["init"]))
+    for k_, a in enumerate(call["args"][1:]):
+        try:
+            v = it_.ev(a)
+        except Exception:  # noqa: BLE001
+            return None
+        want = sp.Piecewise((1, sp.Eq(3 * J + k_, G)), (0, True))
+        same = False
+        if isinstance(v, sp.Piecewise) and len(v.args) == 2 and v.args[0][0] == 1 and v.args[1][0] == 0 and isinstance(v.args[0][1], sp.Equality):
+            d = sp.simplify((v.args[0][1].lhs - v.args[0][1].rhs) - (3 * J + k_ - G))
+            d2 = sp.simplify((v.args[0][1].lhs - v.args[0][1].rhs) + (3 * J + k_ - G))
+            same = d == 0 or d2 == 0
+        if not same:
+            return (False, "lane %d of the seed for sample j is `%s`; it must be 1 exactly when 3 j + %d is the parameter's gradient index" % (k_, v, k_))
+    v0 = str(txt(call["args"][0]))
+    if not re.fullmatch(r"cur\[(%s|self\.grad_index\[\*?&?\w+\])\]" % re.escape(gname or "?"), v0):
+        return (False, "the seed's value must be the parameter's current value cur[gi]; found `%s`" % v0)
+    return (True, "")
+
+
 def r2_packing(rule, root=None):
     jac = A.find_fn(SOL, "get_jacobian", self_ty="Solver", root=root)
     body = A.inline_lets_deep(jac["body"])
     calls = [c for c in A.find(body, "Call") if (A.path_segs(c["func"]) or [])[-2:] == ["Grad", "new"] and len(c["args"]) == 4 and "if" in txt(c)]
-    if len(calls) != 1:
+    sem = _seed_by_meaning(jac) if len(calls) != 1 else None
+    if len(calls) != 1 and sem is not None:
+        if sem[0]:
+            rule.ok("writer: free parameter gi seeds lane (gi mod 3) of sample (gi div 3) with 1 (read by meaning)", file=SOL, line=jac["ln"])
+            rule.ok("writer: j enumerates the samples of the parameter's own row")
+        else:
+            rule.bad("pack|writer", "get_jacobian: %s" % sem[1], A.where(jac))
+    elif len(calls) != 1:
         rule.lost("the unit-seed Grad::new(..) in get_jacobian")
     else:
         # the sample index j enumerates the parameter's own row
@@ -406,17 +478,25 @@ def r4_lm_step(rule, root=None):
             rule.bad("lm|rhs", "the step's right-hand side is `%s`; it must be J^T r, the gradient of the squared residual" % (sp.simplify(rhs).T if isinstance(rhs, sp.MatrixBase) else rhs,), A.where(SOL, node))
     # damping schedule
     ifs = []
+    named = {A.binding_name(l0["pat"]): A.strip(l0["init"]) for l0 in A.find(solve["body"], "Let") if l0.get("init") is not None and A.binding_name(l0["pat"]) and not l0["pat"].get("mut")}
     for n in A.find(solve["body"], "If"):
         c = A.strip(n["cond"])
+        inv = False
+        for _k in range(3):
+            if c.get("k") == "Unary" and c.get("op") == "!":
+                inv = not inv
+                c = A.strip(c["e"])
+            elif c.get("k") == "Path" and A.ident(c) in named:
+                c = named[A.ident(c)]  # a test that was given a name (`let worse = err > prev_err;`)
         if c.get("k") == "Binary" and c.get("op") in (">", "<", ">=", "<="):
             l_, r_ = txt(c["left"]), txt(c["right"])
             if {l_, r_} == {"err", "prev_err"}:
-                ifs.append((n, c, l_, r_))
+                ifs.append((n, c, l_, r_, inv))
     if not ifs:
         rule.skip("solve: damping schedule", "no comparison of the trial error with the previous error found", count=True)
         return
-    n, c, l_, r_ = ifs[0]
-    rose_then = (c["op"] in (">", ">=") and l_ == "err") or (c["op"] in ("<", "<=") and l_ == "prev_err")
+    n, c, l_, r_, inv = ifs[0]
+    rose_then = ((c["op"] in (">", ">=") and l_ == "err") or (c["op"] in ("<", "<=") and l_ == "prev_err")) != inv
     rose, accepted = (n["then"], n.get("else")) if rose_then else (n.get("else"), n["then"])
     if (accepted is None or rose is None):
         # `if worse { ..; continue; }` followed by the accepted case (or the mirror image): the rest of the enclosing
